@@ -471,10 +471,10 @@ def build_sites() -> List[Site]:
                                "reduce(reduce_expr, member_list, initial_value)")),
         Site("macroMin", "member_dot_arg", "min(member_list)", min_cases),
         Site("macroFold", "member_dot_arg", "eval_error('no such overload', TypeError)", fold_cases),
-        Site("methodResolve", "method_eval", "self.activation.resolve_function(method_ident.value)", resolve_fn_cases),
-        Site("methodCall", "method_eval", "function(object, *list_exprlist)", call_cases(True)),
         Site("funcResolve", "function_eval", "self.activation.resolve_function(name_token.value)", resolve_fn_cases),
         Site("funcCall", "function_eval", "function(*list_exprlist)", call_cases(False)),
+        Site("methodResolve", "method_eval", "self.activation.resolve_function(method_ident.value)", resolve_fn_cases),
+        Site("methodCall", "method_eval", "function(object, *list_exprlist)", call_cases(True)),
         Site("objectFields", "member_object", "self.visit_children(tree)", fields_cases),
         Site("objectNew0", "member_object", "protobuf_class(None)", object0_cases),
         Site("objectNew", "member_object", "protobuf_class(cast(celpy.celtypes.Value, fieldinits))", object_cases),
@@ -497,6 +497,11 @@ def measure(sites: Optional[List[Site]] = None) -> Dict[str, Dict[Tuple[str, ...
     logging.disable(logging.CRITICAL)
     out: Dict[str, Dict[Tuple[str, ...], Dict[str, Any]]] = {}
     for s in sites or build_sites():
+        if s.name == "methodCall" and "funcCall" in out:
+            # `function(object, *args)` applies the same functions as `function(*args)` with at least one argument
+            out[s.name] = {k: dict(v, exc=set(v["exc"]), emptyargs=set(v["emptyargs"]))
+                           for k, v in out["funcCall"].items() if k[1] != "0"}
+            continue
         tab: Dict[Tuple[str, ...], Dict[str, Any]] = {}
         for key, call in s.cases():
             e = tab.setdefault(tuple(key), {"exc": set(), "n": 0, "emptyargs": set(), "ok": 0})
